@@ -15,4 +15,11 @@ theorem refcount_operations : Generated.msgShapes = [
     ("Dup", ["dup:=NewMessage(len(m.Body))", "dup.Body=append(dup.Body,m.Body)", "dup.Header=append(dup.Header,m.Header)", "dup.Pipe=m.Pipe", "return dup"]),
     ("NewMessage", ["<*ast.DeclStmt>", "range messageCache", ">if sz<messageCache[i].maxbody", ">>m=messageCache[i].pool.Get().(*Message)", ">>break", "if m==nil", ">m=newMsg(sz)", "m.Body=m.bbuf", "m.Header=m.hbuf", "atomic.StoreInt32(&m.refcnt,1)", "return m"])] := by decide
 
+/-- the places where a protocol changes a message it was handed first make it their own (`Message.MakeUnique`): SUB's
+    RecvMsg (the application gets a private copy of a fan-out message), SURVEYOR's Send, XBUS's Send (which strips the
+    origin header of a forwarded message) and XPAIR1's receiver (which bumps the hop count) -/
+theorem private_copy_before_change :
+    Generated.makeUniqueSites = ["protocol/sub:context.RecvMsg", "protocol/surveyor:context.SendMsg",
+      "protocol/xbus:socket.SendMsg", "protocol/xpair1:pipe.receiver"] := by decide
+
 end Obl.Msg
